@@ -87,8 +87,11 @@ Section Announce.
   Variable decode : msg -> option ann_json.         (* None: not UTF-8 / not JSON *)
   Variable keystr_eqb : keystr -> keystr -> bool.
 
-  Inductive sigfield : Type := SfEmpty | SfNoV0 | SfBadBase32 | SfOk (s : sig).
-  Inductive keyfield : Type := KfEmpty | KfNoV0 | KfOk (ks : keystr).
+  (* the signature / key slot of the triple: falsy (None, b"", 0, [], ...) / bytes without the v0- prefix /
+     a truthy value that is not bytes (number, list, dict, True, text: .startswith raises AttributeError or
+     TypeError) / v0- text that is not base32 / decodes *)
+  Inductive sigfield : Type := SfEmpty | SfNoV0 | SfNotBytes | SfBadBase32 | SfOk (s : sig).
+  Inductive keyfield : Type := KfEmpty | KfNoV0 | KfNotBytes | KfOk (ks : keystr).
   Inductive wire : Type := WNotTriple | WTriple (m : msg) (s : sigfield) (k : keyfield).
 
   Definition unsign_from_foolscap (w : wire) : verdict + (ann_json * keystr) :=
@@ -98,7 +101,9 @@ Section Announce.
         match s, k with
         | SfEmpty, _ | _, KfEmpty => inl RUnknownKey
         | SfNoV0, _ => inl RUnknownKey
+        | SfNotBytes, _ => inl RMalformedSig                 (* sig_vs.startswith raises *)
         | _, KfNoV0 => inl RUnknownKey
+        | _, KfNotBytes => inl RMalformedKey                 (* claimed_key_vs.startswith raises *)
         | s, KfOk ks =>
             match parse_key ks with
             | None => inl RMalformedKey
@@ -229,10 +234,12 @@ End Announce.
 
 Arguments SfEmpty {sig}.
 Arguments SfNoV0 {sig}.
+Arguments SfNotBytes {sig}.
 Arguments SfBadBase32 {sig}.
 Arguments SfOk {sig} s.
 Arguments KfEmpty {keystr}.
 Arguments KfNoV0 {keystr}.
+Arguments KfNotBytes {keystr}.
 Arguments KfOk {keystr} ks.
 Arguments WNotTriple {keystr msg sig}.
 Arguments WTriple {keystr msg sig} m s k.
